@@ -28,6 +28,9 @@ claimed = {
  "C15": dict(cat="model_checking", tech="stateless schedule exploration of the real event bus (iterative preemption bounding / trace-key pruning), call/return history oracle, race detector per schedule",
              text="Six closed drivers (publish vs subscribe/unsubscribe, two publishers, (un)subscription and publication from inside handlers, a handler that blocks until Publish returned, double subscription) with two core and two application handlers; every interleaving up to the bound; the call/return log decides per (handler, event) whether delivery must happen once, must not happen, or may; core handlers finish before Publish returns and before any application handler starts; no deadlock.",
              ref="4 C15"),
+ "C16": dict(cat="model_checking", tech="stateless schedule exploration of the real heartbeat manager with a virtual clock (ticks and select choices are scheduler decisions), iterative deviation bounding, race detector per schedule",
+             text="API sequences over {AddFunctionType(heartbeat), StartHeartbeat, StopHeartbeat, IsHeartbeatRunning, RemoveEntity} on one thread and split over two threads, timeouts 100ms..60s, 3 ticks per ticker: every interleaving up to the bound runs on the real code; no panic, period <= announced timeout, strictly increasing counter in successive notifications, current timestamp, store == last notification, never two streams, at most one refresh after stop returned, running stream keeps refreshing.",
+             ref="4 C16"),
 }
 checks = []
 for pid, c in sorted(claimed.items()):
